@@ -400,7 +400,11 @@ func run(t *rapid.T) *machine {
 		case 4:
 			n = 0 // empty block (not produced by the node; rare edge)
 			if rapid.IntRange(0, 3).Draw(t, "reallyEmpty") != 0 {
-				n = rapid.IntRange(1, 200).Draw(t, "size")
+				hi := 200
+				if hi > maxBlock {
+					hi = maxBlock
+				}
+				n = rapid.IntRange(1, hi).Draw(t, "size")
 			}
 		case 5, 6:
 			n = rapid.IntRange(1, maxBlock).Draw(t, "size")
@@ -410,6 +414,9 @@ func run(t *rapid.T) *machine {
 				hi = maxBlock
 			}
 			n = rapid.IntRange(1, hi).Draw(t, "size")
+		}
+		if n > maxBlock {
+			t.Fatalf("harness: generated a block larger than a block file (%d > %d)", n, maxBlock)
 		}
 		m.seq++
 		b := &blk{id: len(m.blocks), data: fillBytes(rapid.Uint64().Draw(t, "contentSeed"), n)}
